@@ -480,7 +480,12 @@ func (w *wmWorld) runTask(ctx context.Context, id int, ops []sim.Op) {
 			b.mu.Unlock()
 		case "rebegin":
 			b.mu.Lock()
-			mine := w.myTokens(id)
+			var mine []*wmToken
+			for _, tk := range w.myTokens(id) {
+				if !tk.late { // a late unit does not keep the mark below its index: no guard
+					mine = append(mine, tk)
+				}
+			}
 			if len(mine) == 0 {
 				b.mu.Unlock()
 				continue
